@@ -596,7 +596,7 @@ func (c *Context) Sqrt(d, x *Decimal) (Condition, error) {
 	// is still rounded once.
 	inexact := false
 	if c.Precision > 0 {
-		var v, next, mid, sq, ulp Decimal
+		var v, next, mid, ulp Decimal
 		trunc := BaseContext.WithPrecision(c.Precision)
 		trunc.Rounding = RoundDown
 		trunc.round(&v, &approx)
@@ -609,32 +609,25 @@ func (c *Context) Sqrt(d, x *Decimal) (Condition, error) {
 		ulp.SetFinite(1, v.Exponent)
 		// f is in [0.01, 1), so its root is in [0.1, 1) and v and v + ulp have
 		// the same exponent.
-		for i := 0; i < 3; i++ {
-			exact.Mul(&sq, &v, &v)
-			if sq.Cmp(&f) <= 0 {
-				break
-			}
+		for i := 0; i < 3 && cmpPower(&v, 2, &f) > 0; i++ {
 			exact.Sub(&v, &v, &ulp)
 		}
 		for i := 0; i < 3; i++ {
 			exact.Add(&next, &v, &ulp)
-			exact.Mul(&sq, &next, &next)
-			if sq.Cmp(&f) > 0 {
+			if cmpPower(&next, 2, &f) > 0 {
 				break
 			}
 			v.Set(&next)
 		}
-		exact.Mul(&sq, &v, &v)
-		if sq.Cmp(&f) != 0 {
+		if cmpPower(&v, 2, &f) != 0 {
 			inexact = true
 			// mid = v + half a unit in the last place of v.
 			mid.Set(&v)
 			mid.Coeff.Mul(&mid.Coeff, bigTen)
 			mid.Coeff.Add(&mid.Coeff, bigFive)
 			mid.Exponent--
-			exact.Mul(&sq, &mid, &mid)
 			quarter := uint64(50)
-			switch m := sq.Cmp(&f); {
+			switch m := cmpPower(&mid, 2, &f); {
 			case m > 0:
 				quarter = 25
 			case m < 0:
@@ -786,7 +779,7 @@ func (c *Context) Cbrt(d, x *Decimal) (Condition, error) {
 	var tmpL BigInt
 	low := tableExp10(int64(c.Precision)-1, &tmpL) // 10**(Precision-1)
 	var ulp, next Decimal
-	for i := 0; i < 3 && cmpCubeWith(&exact, &v, &ax) > 0; i++ {
+	for i := 0; i < 3 && cmpPower(&v, 3, &ax) > 0; i++ {
 		ulp.SetFinite(1, v.Exponent)
 		if v.Coeff.Cmp(low) == 0 {
 			ulp.Exponent--
@@ -797,7 +790,7 @@ func (c *Context) Cbrt(d, x *Decimal) (Condition, error) {
 	for i := 0; i < 3; i++ {
 		ulp.SetFinite(1, v.Exponent)
 		exact.Add(&next, &v, &ulp)
-		if cmpCubeWith(&exact, &next, &ax) > 0 {
+		if cmpPower(&next, 3, &ax) > 0 {
 			break
 		}
 		v.Set(&next)
@@ -806,7 +799,7 @@ func (c *Context) Cbrt(d, x *Decimal) (Condition, error) {
 			v.Exponent++
 		}
 	}
-	pos := cmpCubeWith(&exact, &v, &ax)
+	pos := cmpPower(&v, 3, &ax)
 	if err := exact.Err(); err != nil {
 		return 0, err
 	}
@@ -825,7 +818,7 @@ func (c *Context) Cbrt(d, x *Decimal) (Condition, error) {
 	mid.Coeff.Add(&mid.Coeff, bigFive)
 	mid.Exponent--
 	quarter := uint64(50)
-	switch m := cmpCubeWith(&exact, &mid, &ax); {
+	switch m := cmpPower(&mid, 3, &ax); {
 	case m > 0:
 		quarter = 25
 	case m < 0:
@@ -843,12 +836,23 @@ func (c *Context) Cbrt(d, x *Decimal) (Condition, error) {
 	return c.goError(res)
 }
 
-// cmpCubeWith compares t**3, computed by ed (which must not round), with x.
-func cmpCubeWith(ed *ErrDecimal, t, x *Decimal) int {
-	var cube Decimal
-	ed.Mul(&cube, t, t)
-	ed.Mul(&cube, &cube, t)
-	return cube.Cmp(x)
+// cmpPower compares t**n with x, exactly. The coefficients are multiplied and
+// aligned as integers, so neither a precision nor the exponent limits come
+// into it. t and x are finite and not negative.
+func cmpPower(t *Decimal, n int, x *Decimal) int {
+	var p, xc, tmp BigInt
+	p.Set(&t.Coeff)
+	for i := 1; i < n; i++ {
+		p.Mul(&p, &t.Coeff)
+	}
+	xc.Set(&x.Coeff)
+	pe, xe := int64(t.Exponent)*int64(n), int64(x.Exponent)
+	if pe > xe {
+		p.Mul(&p, tableExp10(pe-xe, &tmp))
+	} else if xe > pe {
+		xc.Mul(&xc, tableExp10(xe-pe, &tmp))
+	}
+	return p.Cmp(&xc)
 }
 
 func (c *Context) logSpecials(d, x *Decimal) (bool, Condition, error) {
